@@ -377,7 +377,13 @@ def shim_bytes(x=b'', *a):
     return bytes(x, *a)
 
 
-def shim_bytearray(x=b'', *a):
+def shim_bytearray(x=b'', *a, **kw):
+    if isinstance(x, DecodedText):
+        # bytearray(text, encoding=..., errors=...) of decoded file-header bytes: opaque text of the same bytes
+        s = x.b.snapshot()
+        return LazyBytes(s.length, [(0, s.length, TagSrc(('recoded', x.b)), 0)], True)
+    if kw:
+        return bytearray(x, *a, **kw)
     if isinstance(x, LazyBytes):
         s = x.snapshot()
         return LazyBytes(s.length, list(s.layers), True, s.default)
